@@ -407,6 +407,7 @@ pub fn c03(ctx: &Ctx) {
         let sw = Sweep { ctx, nontrivial: AtomicU64::new(0), accepted: AtomicU64::new(0) };
         all_byte_universes::<F>(ctx, &|b| c03_light::<F>(ctx, &sw, b), &|b| c03_heavy::<F>(ctx, b), true);
         c03_sub_universe::<F>(ctx);
+        crate::checks::history::decode_history::<F>(ctx, "C03");
         ctx.nontriv(sw.nontrivial.load(Relaxed));
         ctx.count(&format!("{}_accepted", F::NAME), sw.accepted.load(Relaxed));
         ctx.state(sw.nontrivial.load(Relaxed));
@@ -604,6 +605,8 @@ pub fn c11(ctx: &Ctx) {
                 }
             }
         });
+        crate::checks::history::decode_history::<F>(ctx, "C11");
+        crate::checks::history::encode_history::<F>(ctx, "C11");
         ctx.count(&format!("{}_reference_encodings_of_U_val", F::NAME), u.len() as u64);
         ctx.nontriv(sw.accepted.load(Relaxed));
         ctx.state(sw.accepted.load(Relaxed));
